@@ -656,6 +656,8 @@ def whole_of(t, eng=None, ordered=False):
                 return b2 if b2 is first_src else None
         elif op in ("param", "field", "payload", "phi"):
             return t
+        elif op == "elem" and seen > 1:
+            return t          # the traversed collection is itself the element of an outer iteration (a bucket)
         else:
             return None
     return None
